@@ -58,7 +58,34 @@ static void dumpVF(vio::Out & o, const POMDP::ValueFunction & vf) {
 template <typename M>
 static void solve(const std::string & alg, const M & model, unsigned h, vio::Out & o) {
     if (alg == "ip")  { POMDP::IncrementalPruning s(h, 0.0); auto [var, vf] = s(model); o << var; dumpVF(o, vf); }
-    else if (alg == "wit") { POMDP::Witness s(h, 0.0); auto [var, vf] = s(model); o << var; dumpVF(o, vf); }
+    else if (alg == "wit") {
+        // transcript of the real LP answers (hook events, AITOOLBOX_VERIF): Q <t> <a> <cand> <0|1 b> <rows>  /  D <t> <a> <entries>
+        struct Ev { bool query; unsigned t; size_t a; std::vector<double> cand; bool has; std::vector<double> b; POMDP::VList found; };
+        std::vector<Ev> evs;
+        POMDP::Witness::verifEventObserver() = [&](const POMDP::Witness::VerifEvent & e) {
+            Ev x; x.query = e.kind == POMDP::Witness::VerifEvent::Query; x.t = e.timestep; x.a = e.action; x.has = false;
+            if (x.query) {
+                for (Eigen::Index i = 0; i < e.candidate->size(); ++i) x.cand.push_back((*e.candidate)[i]);
+                if (*e.witness) { x.has = true; for (Eigen::Index i = 0; i < (*e.witness)->size(); ++i) x.b.push_back((**e.witness)[i]); }
+            }
+            x.found = *e.found;
+            evs.push_back(std::move(x));
+        };
+        POMDP::Witness s(h, 0.0);
+        try { auto [var, vf] = s(model); o << var; dumpVF(o, vf); }
+        catch (...) { POMDP::Witness::verifEventObserver() = nullptr; throw; }
+        POMDP::Witness::verifEventObserver() = nullptr;
+        o << evs.size();
+        for (const auto & e : evs) {
+            o << (e.query ? "Q" : "D") << e.t << e.a;
+            if (e.query) { o.list(e.cand); o << (e.has ? 1 : 0); o.list(e.b); }
+            o << e.found.size();
+            for (const auto & f : e.found) {
+                o << f.action; o.list(f.observations);
+                o << (size_t) f.values.size(); for (Eigen::Index i = 0; i < f.values.size(); ++i) o << f.values[i];
+            }
+        }
+    }
     else if (alg == "ls")  { POMDP::LinearSupport s(h, 0.0); auto [var, vf] = s(model); o << var; dumpVF(o, vf); }
     else throw std::logic_error("unknown solver " + alg);
 }
